@@ -37,6 +37,9 @@ EXTRA = {  # used by the random part only
     "debug1": (["debug 0 1"], True), "debug0": (["debug 0 0"], True),
     "chunk16": (["chunk 0 16"], True), "swap0": (["opt 0 swap 0"], True), "all1": (["opt 0 all 1"], True), "odd": (["opt 0 all 7"], True),
     "setoff0": (["setoff 0 0"], False), "asm2": (["asm 0 %s" % common.hx(P_OK2)], False),
+    "chunk1": (["chunk 0 1"], True), "chunk2": (["chunk 0 2"], True), "chunk3": (["chunk 0 3"], True), "chunk4096": (["chunk 0 4096"], True),
+    "chunkmax": (["chunk 0 18446744073709551615"], True), "setoffneg": (["setoff 0 -5"], False),
+    "getters": (["getoff 0", "setoff 0 3", "sumoff 0"], False),  # asm_get_offset / asm_get_code are pure
     "errno34": (["errno 0 34"], False), "errno22": (["errno 0 22"], False), "asmover": (["asm 0 %s" % common.hx(P_OVER)], False),
 }
 FINALS = [("asm", P_OK), ("asm", P_OK2), ("cnt 8", P_OK2), ("asm", P_LONG), ("asm", P_BAD), ("cnt 3", P_OK), ("asm", P_SIB), ("asm", P_ONES)]
@@ -102,7 +105,7 @@ def run(tier):
              "others": (["new 1 ext 64 H 0xcc", "del 1"], False), "failing": (["asm 0 %s" % common.hx("bogus")], False)}
     nstorm = 0
     for uname, (ucmds, ucfg) in sorted(units.items()):
-        ns = [254, 256, 258, 510, 512, 514] + ([65534, 65536, 65538] if uname in ("movtoggle", "alltoggle") else []) + ([1022, 1024, 4096] if full else [])
+        ns = [254, 256, 258, 510, 512, 514] + ([65534, 65536, 65538] if uname in ("movtoggle", "alltoggle") else []) + ([65536] if uname in ("failing", "smallasm", "others", "smallcnt") else []) + ([1022, 1024, 4096] if full else [])
         for N in ns:
             sym = "storm:%s*%d" % (uname, N)
             table[sym] = (ucmds * (N // len(ucmds)), ucfg)
